@@ -300,7 +300,7 @@ class RefRoleHandler:
             target = target[1:]
 
         # Add the giza prefix/tag, if necessary
-        if self.prefix and not target.startswith(self.prefix):
+        if self.prefix and not target.startswith(self.prefix + "."):
             target = f"{self.prefix}.{target}"
 
         if self.target_type == specparser.TargetType.callable:
